@@ -43,24 +43,29 @@ def SpecState.crashed (st : SpecState) : Bool := st.tornInID || st.tornInKey || 
 def SpecState.idOf (st : SpecState) (k : Bytes) : Option Nat := (st.live.find? (·.1 = k)).map (·.2)
 def SpecState.keyOf (st : SpecState) (id : Nat) : Option Bytes := (st.live.find? (·.2 = id)).map (·.1)
 
+def hexDigit (n : Nat) : Char :=
+  if n < 10 then Char.ofNat (48 + n) else Char.ofNat (87 + n)
+/-- detail text of a failure reason (no spaces) -/
+def hexOf (k : Bytes) : String := String.ofList (k.flatMap fun b => [hexDigit ((b / 16) % 16), hexDigit (b % 16)])
+
 /-- one observation "key `k` has id `x`" (`x = 0`: absent); `creating`: made by a create -/
 def observe (st : SpecState) (k : Bytes) (x : Nat) (creating : Bool) : SpecState × Check :=
   match st.idOf k with
   | some y =>
     -- an acknowledged live series: same id every time
     if x = y then (st, none)
-    else if x = 0 then (st, some ("series-lost" ++ st.ctx ++ ":"))
-    else (st, some ("id-not-stable" ++ st.ctx ++ ":"))
+    else if x = 0 then (st, some ("series-lost" ++ st.ctx ++ s!":key={hexOf k},id={y}"))
+    else (st, some ("id-not-stable" ++ st.ctx ++ s!":key={hexOf k},id={y},now={x}"))
   | none =>
     if x = 0 then
-      (st, if creating then some ("create-returned-zero" ++ st.ctx ++ ":") else none)
+      (st, if creating then some ("create-returned-zero" ++ st.ctx ++ s!":key={hexOf k}") else none)
     else if st.used.contains x then
       -- a new (or re-created) series must get an id never used before
-      (st, some ("id-reused" ++ st.ctx ++ ":"))
+      (st, some ("id-reused" ++ st.ctx ++ s!":key={hexOf k},id={x}"))
     else if creating || st.crashed then
       -- after a crash an unacknowledged creation may have survived: it counts from now on
       ({ st with live := (k, x) :: st.live, used := x :: st.used }, none)
-    else (st, some ("phantom-series" ++ st.ctx ++ ":"))
+    else (st, some ("phantom-series" ++ st.ctx ++ s!":key={hexOf k},id={x}"))
 
 def observeAll (st : SpecState) (creating : Bool) : List (Bytes × Nat) → SpecState × Check
   | [] => (st, none)
@@ -72,7 +77,9 @@ def observeAll (st : SpecState) (creating : Bool) : List (Bytes × Nat) → Spec
 /-- "id `id` has key `k`" -/
 def observeKey (st : SpecState) (id : Nat) (k : Option Bytes) : Check :=
   match st.keyOf id with
-  | some k0 => if k = some k0 then none else some ("key-changed" ++ st.ctx ++ ":")
+  | some k0 =>
+    if k = some k0 then none
+    else some ("key-changed" ++ st.ctx ++ s!":id={id},key={hexOf k0},now={match k with | some k' => hexOf k' | none => "nil"}")
   | none => none
 
 def check (st : SpecState) : Op → Obs → SpecState × Check
@@ -113,7 +120,7 @@ def check (st : SpecState) : Op → Obs → SpecState × Check
       | some _ => observe st1 k.1 x false
       | none =>
         if x = 0 then (st1, none)
-        else if st1.used.contains x then (st1, some ("id-reused" ++ st1.ctx ++ ":"))
+        else if st1.used.contains x then (st1, some ("id-reused" ++ st1.ctx ++ s!":key={hexOf k.1},id={x}"))
         else ({ st1 with live := (k.1, x) :: st1.live, used := x :: st1.used }, none)
     | _ => (st1, some "torn-failed:")
   | .tornDel id cut, a =>
